@@ -1021,6 +1021,21 @@ class MinMaxResult(tuple):
     values = property(lambda s: s[0])
     indices = property(lambda s: s[1])
 
+    def __vc_getattr__(self, I, name):
+        if name == "values":
+            return self[0]
+        if name == "indices":
+            return self[1]
+        raise Unsupported("attribute %s of a (values, indices) result" % name)
+
+    def __vc_getitem__(self, I, idx):
+        return tuple.__getitem__(self, idx)
+
+    def __vc_unpack__(self, I, n):
+        if n != 2:
+            raise PyRaise("ValueError", "unpack")
+        return [self[0], self[1]]
+
 
 def _minmax(is_min):
     def f(I, t, other=None, keepdim=False, dim=None):
